@@ -32,6 +32,7 @@ static OMap::node opool[CAP], oenv[ENVN];
 static char objpool[8];          // object / session addresses known to the table at entry
 static char envobj[ENVN];        // addresses owned by OTHER threads (never equal to anything the calling thread passes in)
 static char mysess;              // the calling thread's freshly created session (addSession)
+VRAW(HandleManager, lifecycle, )   // typed raw storage (a pointer stored into an untyped array would lose its target for CBMC)
 static HandleManager* g_hm;
 static void* g_own;              // what the calling thread owns in this call (its session / the object it passes in): other threads do not remove it
 static CK_ULONG g_q;             // handle argument of the call
@@ -138,9 +139,8 @@ extern "C" void harness(void)
 #if OP == 10
 	// life cycle: the constructor obtains the mutex and takes no lock; the destructor hands the mutex back, holding nothing.
 	// (construction / destruction are exclusive by contract - C_Initialize / C_Finalize)
-	static long raw[(sizeof(HandleManager) + 7) / 8];
 	lm_on = true;
-	HandleManager* p = new (raw) HandleManager();
+	HandleManager* p = new (&vraw_lifecycle) HandleManager();
 	lm_on = false;
 	vassert(p->handlesMutex != NULL && lm_idx(p->handlesMutex) >= 0 && vmutex_depth(p->handlesMutex) == 0 && p->handleCounter == 0);
 	vassert(lm_all_released());
@@ -307,7 +307,7 @@ void softHSMLog(const int, const char*, const char*, const int, const char*, ...
 extern "C" void stub_resetOp(Session*) {}
 
 enum { ENVN = 1 };
-VRAW(Slot, slot, [2]) VRAW(Token, tok, [2]) VRAW(SecureDataManager, sdm, [2]) VRAW(Session, sess, [NSESS]) VRAW(Session, envsess, [ENVN])
+VRAW(Slot, slot, [2]) VRAW(Token, tok, [2]) VRAW(SecureDataManager, sdm, [2]) VRAW(Session, sess, [NSESS]) VRAW(Session, envsess, [ENVN]) VRAW(SessionManager, lifecycle, )
 static Session proto_session;                 // built by the real default constructor (vtable pointer of a real Session)
 static SessionManager sm;
 static const CK_SLOT_ID SLOT_ID[2] = { 11, 22 };
@@ -352,7 +352,7 @@ static void env_step(bool mayOpen)
 	if (mayOpen && envn < ENVN && nondet_bool())
 	{
 		Session* e = &vraw_envsess[envn]; envn++;
-		mkSession(e, nondet_bool() ? 1 : 0, nondet_bool(), 0, 0);
+		{ int tk_ = nondet_bool() ? 1 : 0; bool rw_ = nondet_bool(); mkSession(e, tk_, rw_, 0, 0); }      // (one nondet input per statement: argument evaluation order differs between clang and g++)
 		bool done = false;
 		for (size_t i = 0; i < NSESS; i++) if (!done && i < sm.sessions.n_ && !sm.sessions.s_[i]) { sm.sessions.s_[i] = e; e->hSession = i + 1; done = true; }
 		for (size_t i = 0; i < NSESS; i++) if (!done && i == sm.sessions.n_) { sm.sessions.s_[i] = e; e->hSession = i + 1; sm.sessions.n_ = i + 1; done = true; }
@@ -378,10 +378,9 @@ static bool inv()
 extern "C" void harness(void)
 {
 #if OP == 10
-	static long raw[(sizeof(SessionManager) + 7) / 8];
 	size_t before = lm_recycled;
 	lm_on = true;
-	SessionManager* p = new (raw) SessionManager();
+	SessionManager* p = new (&vraw_lifecycle) SessionManager();
 	lm_on = false;
 	vassert(p->sessionsMutex != NULL && lm_idx(p->sessionsMutex) >= 0 && lm_all_released() && p->sessions.n_ == 0);
 	lm_on = true;
@@ -406,7 +405,7 @@ extern "C" void harness(void)
 	for (int i = 0; i < NSESS; i++)
 	{
 		sm.sessions.s_[i] = 0;
-		if (i < (int)sm.sessions.n_ && nondet_bool()) { mkSession(&vraw_sess[i], nondet_bool() ? 1 : 0, nondet_bool(), i + 1, 0); sm.sessions.s_[i] = &vraw_sess[i]; }
+		if (i < (int)sm.sessions.n_ && nondet_bool()) { int tk_ = nondet_bool() ? 1 : 0; bool rw_ = nondet_bool(); mkSession(&vraw_sess[i], tk_, rw_, i + 1, 0); sm.sessions.s_[i] = &vraw_sess[i]; }
 	}
 	vassume(inv());
 	vassert(lm_all_released());
@@ -517,5 +516,418 @@ extern "C" void harness(void)
 	vassert(inv());
 	vreach();
 #endif
+}
+#endif
+
+#if CLS == 3
+// =============================================================================================== SessionObjectStore
+// Real SessionObjectStore + SessionObject (its objectMutex and attribute map are real: storeMutex -> objectMutex nesting is executed).
+#define private public
+#define protected public
+#include "SessionObjectStore.h"
+#include "SessionObject.h"
+#include "OSAttribute.h"
+#undef private
+#undef protected
+#include <stdarg.h>
+void softHSMLog(const int, const char*, const char*, const int, const char*, ...) {}
+typedef std::set<SessionObject*> OSet;
+enum { CAP = OSet::CAP, NOBJ = CAP - 1, ENVN = 1 };     // one slot of the sets stays free for the object created by this call / by another thread
+static SessionObjectStore store;
+VRAW(SessionObject, objraw, [NOBJ]) VRAW(SessionObject, envraw, [ENVN]) VRAW(SessionObjectStore, lifecycle, )   // typed raw storage; the real constructors run on it
+static SessionObject* obj[NOBJ]; static SessionObject* envobj[ENVN];
+static OSAttribute* attrProto;
+static SessionObject* g_own;                  // the object the calling thread works with (the one it passes in): no other thread destroys it
+static unsigned envn;
+static bool in(const OSet& s, SessionObject* o) { for (size_t j = 0; j < CAP; j++) if (s.u_[j] && s.k_[j] == o) return true; return false; }
+static void drop(OSet& s, SessionObject* o) { for (size_t j = 0; j < CAP; j++) if (s.u_[j] && s.k_[j] == o) s.u_[j] = false; }
+static void put(OSet& s, SessionObject* o) { bool done = false; for (size_t j = 0; j < CAP; j++) if (!done && !s.u_[j]) { s.k_[j] = o; s.u_[j] = true; done = true; } }
+static size_t count(const OSet& s) { size_t n = 0; for (size_t j = 0; j < CAP; j++) if (s.u_[j]) n++; return n; }
+static bool isEnv(SessionObject* o) { for (unsigned i = 0; i < ENVN; i++) if (o == envobj[i]) return true; return false; }
+static struct { bool valid; bool inObjects[NOBJ]; bool inAll[NOBJ]; size_t n; } L;
+static void snapshot() { L.valid = true; L.n = count(store.objects); for (int i = 0; i < NOBJ; i++) { L.inObjects[i] = in(store.objects, obj[i]); L.inAll[i] = in(store.allObjects, obj[i]); } }
+extern "C" void vstl_access(const void* c)
+{
+	if (!lm_on) return;
+	GUARDED_BY(c, store.objects, store.storeMutex);
+	GUARDED_BY(c, store.allObjects, store.storeMutex);
+	for (int i = 0; i < NOBJ; i++) if (obj[i]) GUARDED_BY(c, obj[i]->attributes, obj[i]->objectMutex);
+	for (unsigned i = 0; i < ENVN; i++) if (envobj[i]) GUARDED_BY(c, envobj[i]->attributes, envobj[i]->objectMutex);
+}
+// one admissible step of the other threads: they destroy session objects of their own (C_DestroyObject -> deleteObject) and,
+// after the release, create one (C_CreateObject -> createObject); the calling thread's object stays.
+static void env_step(bool mayCreate)
+{
+	for (int i = 0; i < NOBJ; i++) if (obj[i] != g_own && in(store.objects, obj[i]) && nondet_bool()) { drop(store.objects, obj[i]); obj[i]->valid = false; }
+	if (mayCreate && envn < ENVN && count(store.objects) < CAP && count(store.allObjects) < CAP && nondet_bool())
+	{
+		SessionObject* e = envobj[envn]; envn++;
+		e->slotID = nondet_uchar() & 1; e->hSession = nondet_uchar() & 3; e->isPrivate = nondet_bool(); e->valid = true;
+		put(store.objects, e); put(store.allObjects, e);
+	}
+}
+static void lm_on_acquire(int idx) { if (&lm_pool[idx] == store.storeMutex) { env_step(false); snapshot(); } }
+static void lm_on_release(int idx) { if (&lm_pool[idx] == store.storeMutex) env_step(true); }
+// representation invariant: objects is a subset of allObjects; members of objects are valid; an object that left `objects` is invalid and has no attributes
+static bool inv()
+{
+	for (size_t j = 0; j < CAP; j++)
+	{
+		if (store.objects.u_[j])
+		{
+			SessionObject* o = store.objects.k_[j];
+			if (!o || !in(store.allObjects, o) || !o->valid) return false;
+			for (size_t k = 0; k < j; k++) if (store.objects.u_[k] && store.objects.k_[k] == o) return false;
+		}
+		if (store.allObjects.u_[j]) { for (size_t k = 0; k < j; k++) if (store.allObjects.u_[k] && store.allObjects.k_[k] == store.allObjects.k_[j]) return false; }
+	}
+	return true;
+}
+
+extern "C" void harness(void)
+{
+	const int MS = lm_idx(store.storeMutex);
+	lm_set_rank(store.storeMutex, LM_RANK_STORE);
+#if OP == 10
+	size_t before = lm_recycled;
+	lm_on = true;
+	SessionObjectStore* p = new (&vraw_lifecycle) SessionObjectStore();
+	lm_on = false;
+	vassert(p->storeMutex != NULL && lm_idx(p->storeMutex) >= 0 && lm_all_released());
+	lm_on = true;
+	p->~SessionObjectStore();                    // exclusive by contract (C_Finalize)
+	lm_on = false;
+	vassert(lm_recycled == before + 1 && lm_all_released());
+	vreach(); return;
+#else
+	static OSAttribute protoAttr((unsigned long)7);
+	int MO[NOBJ];
+	for (int i = 0; i < NOBJ; i++)
+	{
+		{ CK_SLOT_ID sl_ = nondet_uchar() & 1; CK_SESSION_HANDLE hs_ = nondet_uchar() & 3; bool pr_ = nondet_bool();
+		obj[i] = new (&vraw_objraw[i]) SessionObject(&store, sl_, hs_, pr_); }   // real constructor: own objectMutex, empty attribute map
+		lm_set_rank(obj[i]->objectMutex, LM_RANK_OBJECT); MO[i] = lm_idx(obj[i]->objectMutex);
+		if (nondet_bool()) { store.allObjects.k_[i] = obj[i]; store.allObjects.u_[i] = true; }
+		if (nondet_bool()) { store.objects.k_[i] = obj[i]; store.objects.u_[i] = true; }
+		else obj[i]->valid = false;
+		if (obj[i]->valid && nondet_bool()) obj[i]->attributes[CKA_LABEL] = new OSAttribute(protoAttr);   // one attribute, so that discardAttributes has work
+	}
+	for (unsigned i = 0; i < ENVN; i++) { envobj[i] = new (&vraw_envraw[i]) SessionObject(&store, 0, 0, false); lm_set_rank(envobj[i]->objectMutex, LM_RANK_OBJECT); }
+	vassume(inv());
+	vassert(lm_all_released());
+	bool pre[NOBJ]; for (int i = 0; i < NOBJ; i++) pre[i] = in(store.objects, obj[i]);
+#if OP == 0   // createObject: the new object is in both sets when the call returns and afterwards (the constructor runs before the lock: private data)
+	CK_SLOT_ID sl = nondet_uchar() & 1; CK_SESSION_HANDLE hs = nondet_uchar() & 3; bool priv = nondet_bool();
+	lm_on = true;
+	SessionObject* o = store.createObject(sl, hs, priv);
+	lm_on = false;
+	vassert(o != NULL && L.valid && lm_acquisitions[MS] == 1);
+	lm_set_rank(o->objectMutex, LM_RANK_OBJECT);
+	vassert(in(store.objects, o) && in(store.allObjects, o) && o->valid && o->slotID == sl && o->hSession == hs && o->isPrivate == priv && o->parent == &store);
+	for (int i = 0; i < NOBJ; i++) vassert(o != obj[i]);
+	vreach();
+#elif OP == 1  // deleteObject: decided and done in one critical section; the object's attributes are discarded under its own mutex (nested)
+	int k = nondet_uchar() % NOBJ; g_own = obj[k];
+	lm_on = true;
+	bool ok = store.deleteObject(g_own);
+	lm_on = false;
+	vassert(L.valid && lm_acquisitions[MS] == 1 && ok == L.inObjects[k]);
+	vassert(!in(store.objects, g_own));
+	if (ok) { vassert(!g_own->valid && lm_pair[MS][MO[k]] && lm_acquisitions[MO[k]] == 1); vassert(in(store.allObjects, g_own)); vreach(); }
+	else { vassert(lm_acquisitions[MO[k]] == 0); vreach(); }
+#elif OP == 2 || OP == 3 || OP == 4   // sessionClosed / allSessionsClosed / tokenLoggedOut: purge in one critical section
+	CK_ULONG arg = nondet_uchar() & 3;
+	lm_on = true;
+#if OP == 2
+	store.sessionClosed(arg);
+#elif OP == 3
+	store.allSessionsClosed(arg);
+#else
+	store.tokenLoggedOut(arg);
+#endif
+	lm_on = false;
+	vassert(L.valid && lm_acquisitions[MS] == 1);
+	for (int i = 0; i < NOBJ; i++)
+	{
+#if OP == 2
+		bool hit = obj[i]->hSession == arg;
+#elif OP == 3
+		bool hit = obj[i]->slotID == arg;
+#else
+		bool hit = obj[i]->slotID == arg && obj[i]->isPrivate;
+#endif
+		if (L.inObjects[i] && hit) { vassert(!in(store.objects, obj[i]) && !obj[i]->valid && lm_pair[MS][MO[i]]); vassert(in(store.allObjects, obj[i]) == L.inAll[i]); vreach(); }
+		if (L.inObjects[i] && !hit) { vassert(lm_acquisitions[MO[i]] == 0); if (in(store.objects, obj[i])) vreach(); }   // (it may still have been destroyed by its owner after the release)
+	}
+#elif OP == 5 || OP == 6   // getObjects(set) / getObjects(slot, set): the answer is the content at lock time
+	static std::set<OSObject*> out; CK_SLOT_ID sl = nondet_uchar() & 1;
+	lm_on = true;
+#if OP == 5
+	store.getObjects(out);
+#else
+	store.getObjects(sl, out);
+#endif
+	lm_on = false;
+	vassert(L.valid && lm_acquisitions[MS] == 1);
+	for (int i = 0; i < NOBJ; i++)
+	{
+		bool want = L.inObjects[i] && (OP == 5 || obj[i]->slotID == sl), got = false;
+		for (size_t j = 0; j < std::set<OSObject*>::CAP; j++) if (out.u_[j] && out.k_[j] == (OSObject*)obj[i]) got = true;
+		vassert(want == got);
+		if (got) vreach();
+	}
+#elif OP == 7  // clearStore: both sets emptied and the objects destroyed inside one critical section
+	lm_on = true;
+	store.clearStore();
+	lm_on = false;
+	vassert(L.valid && lm_acquisitions[MS] == 1);
+	for (int i = 0; i < NOBJ; i++) { vassert(!in(store.objects, obj[i]) && !in(store.allObjects, obj[i])); if (L.inAll[i]) { vassert(lm_pair[MS][MO[i]]); vreach(); } }
+#elif OP == 8  // getObjectCount - KNOWN: reads objects.size() WITHOUT storeMutex (the only caller in the tree is the unit test)
+	lm_on = true;
+	int n = store.getObjectCount();
+	lm_on = false;
+	vassert(n >= 0);
+#endif
+	vassert(lm_all_released());
+	vassert(lm_acquisitions[MS] <= 1);
+	for (int a = 0; a < LM_N; a++) for (int b = 0; b < LM_N; b++) if (lm_pair[a][b]) vassert(lm_rank[a] < lm_rank[b]);
+#if OP != 7
+	vassert(inv());
+#endif
+	vreach();
+#endif
+}
+#endif
+
+#if CLS == 4
+// =============================================================================================== Token (+ its SecureDataManager)
+// Real Token + SecureDataManager: everything a token shares between the sessions of all threads - the login flags, the masked
+// key, the PIN blobs and the ONE AES instance of the token - is used under Token::tokenMutex; SecureDataManager::dataMgrMutex
+// nests inside it.  The PBE/AES internals of SecureDataManager::login / reAuthenticate are cut to a lock-faithful contract
+// (login logs out first - the real logout, real dataMgrMutex - and takes dataMgrMutex again to install the key when accepted).
+#define private public
+#define protected public
+#include "Token.h"
+#include "SecureDataManager.h"
+#include "SymmetricAlgorithm.h"
+#include "AESKey.h"
+#include "RNG.h"
+#undef private
+#undef protected
+#include "store_token_model.h"
+#include <stdarg.h>
+void softHSMLog(const int, const char*, const char*, const int, const char*, ...) {}
+VRAW(Token, tok, ) VRAW(SecureDataManager, sdm, )
+static ModelStoreToken store;
+static unsigned long pinChecks, aesCalls; static bool accept;
+static bool tokenHeld() { return vmutex_depth(vraw_tok.tokenMutex) > 0; }
+// the single AES instance / RNG of the token: every use must happen under tokenMutex (L9001)
+class LockSym : public SymmetricAlgorithm {
+public:
+	void use() { aesCalls++; if (lm_on) vassert_(tokenHeld(), 9001); }
+	virtual bool encryptInit(const SymmetricKey*, const SymMode::Type, const ByteString&, bool, size_t, const ByteString&, size_t) { use(); return nondet_bool(); }
+	virtual bool decryptInit(const SymmetricKey*, const SymMode::Type, const ByteString&, bool, size_t, const ByteString&, size_t) { use(); return nondet_bool(); }
+	virtual bool encryptUpdate(const ByteString&, ByteString& out) { use(); out.resize(nondet_uchar() & 1); return nondet_bool(); }
+	virtual bool encryptFinal(ByteString& out) { use(); out.resize(nondet_uchar() & 1); return nondet_bool(); }
+	virtual bool decryptUpdate(const ByteString&, ByteString& out) { use(); out.resize(nondet_uchar() & 1); return nondet_bool(); }
+	virtual bool decryptFinal(ByteString& out) { use(); out.resize(nondet_uchar() & 1); return nondet_bool(); }
+	virtual bool wrapKey(const SymmetricKey*, const SymWrap::Type, const ByteString&, ByteString&) { use(); return false; }
+	virtual bool unwrapKey(const SymmetricKey*, const SymWrap::Type, const ByteString&, ByteString&) { use(); return false; }
+	virtual size_t getBlockSize() const { return 2; }
+	virtual bool checkMaximumBytes(unsigned long) { return true; }
+};
+class LockRNG : public RNG {
+public:
+	virtual bool generateRandom(ByteString& data, const size_t len) { if (lm_on) vassert_(tokenHeld(), 9001); data.resize(len); return nondet_bool(); }
+	virtual void seed(ByteString&) {}
+};
+static LockSym lock_sym; static LockRNG lock_rng;
+extern "C" {
+bool stub_sdm_login(SecureDataManager* d, const ByteString& pin, const ByteString& blob) { pinChecks++; d->logout(); if (!accept) return false; MutexLocker lock(d->dataMgrMutex); d->maskedKey.resize(KEYLEN); return true; }
+bool stub_sdm_reauth(SecureDataManager* d, const ByteString& pin, const ByteString& blob) { pinChecks++; return accept; }
+}
+extern "C" void vstl_access(const void* c)
+{
+	if (!lm_on) return;
+	SecureDataManager& d = vraw_sdm;
+	GUARDED_BY(c, d.maskedKey.byteString, vraw_tok.tokenMutex);
+	GUARDED_BY(c, d.soEncryptedKey.byteString, vraw_tok.tokenMutex);
+	GUARDED_BY(c, d.userEncryptedKey.byteString, vraw_tok.tokenMutex);
+	GUARDED_BY(c, d.magic.byteString, vraw_tok.tokenMutex);
+	if (d.mask) GUARDED_BY(c, d.mask->byteString, d.dataMgrMutex);                 // the mask is only touched inside dataMgrMutex sections
+}
+// lock-time / release-time snapshots and the interference of other threads' sessions on the same token: they log in / out
+static struct { bool valid; bool so, us; } L, R;
+static void env_step()
+{
+	SecureDataManager& d = vraw_sdm;
+	bool so = nondet_bool(), us = nondet_bool(); vassume(!(so && us));
+	d.soLoggedIn = so; d.userLoggedIn = us; d.maskedKey.byteString.n_ = (so || us) ? KEYLEN : 0;
+}
+static void lm_on_acquire(int idx) { if (&lm_pool[idx] == vraw_tok.tokenMutex) { env_step(); L.valid = true; L.so = vraw_sdm.soLoggedIn; L.us = vraw_sdm.userLoggedIn; } }
+static void lm_on_release(int idx) { if (&lm_pool[idx] == vraw_tok.tokenMutex) { R.valid = true; R.so = vraw_sdm.soLoggedIn; R.us = vraw_sdm.userLoggedIn; env_step(); } }
+
+extern "C" void harness(void)
+{
+	SecureDataManager& d = vraw_sdm; Token& t = vraw_tok;
+	d.soLoggedIn = nondet_bool(); d.userLoggedIn = nondet_bool(); vassume(!(d.soLoggedIn && d.userLoggedIn));
+	d.dataMgrMutex = MutexFactory::i()->getMutex(); d.mask = new ByteString(); d.mask->resize(KEYLEN); d.aes = &lock_sym; d.rng = &lock_rng;
+	d.maskedKey.resize((d.soLoggedIn || d.userLoggedIn) ? KEYLEN : 0);
+	size_t a = nondet_uchar(), b = nondet_uchar(); vassume(a <= 2 && b <= 2); d.soEncryptedKey.resize(a); d.userEncryptedKey.resize(b);
+	store.havoc(2);
+	bool noSdm = nondet_bool();
+	t.valid = nondet_bool(); t.token = &store; t.sdm = noSdm ? (SecureDataManager*)0 : &d; t.tokenMutex = MutexFactory::i()->getMutex();
+	const int MT = lm_idx(t.tokenMutex), MD = lm_idx(d.dataMgrMutex);
+	lm_set_rank(t.tokenMutex, LM_RANK_TOKEN); lm_set_rank(d.dataMgrMutex, LM_RANK_DATAMGR);
+	accept = nondet_bool();
+	bool userPinSet = d.userEncryptedKey.size() != 0;
+	ByteString pin; size_t pl = nondet_uchar(); vassume(pl <= 2); pin.resize(pl);
+	vassert(lm_all_released());
+	lm_on = true;
+#if OP == 0
+	bool r = t.isValid();
+	lm_on = false;
+	vassert(L.valid && r == (t.valid && store.valid));
+#elif OP == 1
+	bool r = t.isSOLoggedIn();
+	lm_on = false;
+	vassert(L.valid && r == (!noSdm && L.so)); if (r) vreach();
+#elif OP == 2
+	bool r = t.isUserLoggedIn();
+	lm_on = false;
+	vassert(L.valid && r == (!noSdm && L.us)); if (r) vreach();
+#elif OP == 3 || OP == 4   // loginSO / loginUser: the "nobody is logged in" test, the PIN check and the flag update are ONE critical section
+#if OP == 3
+	CK_RV rv = t.loginSO(pin); bool mine = L.so, other = L.us; bool pinOk = true;
+#else
+	CK_RV rv = t.loginUser(pin); bool mine = L.us, other = L.so; bool pinOk = userPinSet;
+#endif
+	lm_on = false;
+	vassert(L.valid && R.valid);
+	if (noSdm) vassert(rv == CKR_GENERAL_ERROR);
+	else if (other) { vassert(rv == CKR_USER_ANOTHER_ALREADY_LOGGED_IN && pinChecks == 0 && R.so == L.so && R.us == L.us); vreach(); }
+	else if (mine) { vassert(rv == CKR_USER_ALREADY_LOGGED_IN && pinChecks == 0 && R.so == L.so && R.us == L.us); vreach(); }
+	else if (!pinOk) vassert(rv == CKR_USER_PIN_NOT_INITIALIZED && pinChecks == 0);
+	else if (store.failReads) vassert(rv == CKR_GENERAL_ERROR && pinChecks == 0);
+	else
+	{
+		vassert(pinChecks == 1 && rv == (accept ? CKR_OK : CKR_PIN_INCORRECT));
+		vassert((OP == 3 ? R.so : R.us) == accept && !(OP == 3 ? R.us : R.so));    // state when the lock was released
+		vassert(lm_pair[MT][MD]);                                                   // dataMgrMutex nested inside tokenMutex
+		if (accept) vreach(); else vreach();
+	}
+#elif OP == 5   // reAuthenticate
+	CK_RV rv = t.reAuthenticate(pin);
+	lm_on = false;
+	vassert(L.valid && R.valid && R.so == L.so && R.us == L.us);
+	if (!noSdm && !store.failReads) { vassert(rv == ((L.so || L.us) ? (accept ? CKR_OK : CKR_PIN_INCORRECT) : CKR_OPERATION_NOT_INITIALIZED)); vreach(); }
+#elif OP == 6   // logout
+	t.logout();
+	lm_on = false;
+	vassert(L.valid && R.valid);
+	if (!noSdm) { vassert(!R.so && !R.us && lm_pair[MT][MD] && lm_acquisitions[MD] == 1); vreach(); }
+#elif OP == 7 || OP == 8   // decrypt / encrypt: login test, key unmasking and the use of the token's AES instance inside one tokenMutex section
+	ByteString in, out; size_t il = nondet_uchar(); vassume(il <= 3); in.resize(il);
+#if OP == 7
+	bool ok = t.decrypt(in, out);
+#else
+	bool ok = t.encrypt(in, out);
+#endif
+	lm_on = false;
+	vassert(L.valid && R.valid && R.so == L.so && R.us == L.us);
+	if (noSdm || (!L.so && !L.us)) { vassert(!ok && aesCalls == 0 && lm_acquisitions[MD] == 0); vreach(); }
+	if (ok && aesCalls) { vassert(lm_pair[MT][MD] && lm_acquisitions[MD] == 1); vreach(); }
+#endif
+	vassert(lm_all_released());
+	vassert(lm_acquisitions[MT] == 1);                                            // exactly one critical section over the token per method
+	vassert(!lm_pair[MD][MT]);
+	for (int x = 0; x < LM_N; x++) for (int y = 0; y < LM_N; y++) if (lm_pair[x][y]) vassert(lm_rank[x] < lm_rank[y]);
+	vreach();
+}
+#endif
+
+#if CLS == 5
+// =============================================================================================== SecureMemoryRegistry
+// (every ByteString allocation of every thread registers / unregisters its block here; C_Finalize wipes what is left)
+#define private public
+#include "SecureMemoryRegistry.h"
+#undef private
+#include <stdarg.h>
+void softHSMLog(const int, const char*, const char*, const int, const char*, ...) {}
+typedef std::map<void*, size_t> RMap;
+enum { CAP = RMap::CAP, BLK = 2, ENVN = 2 };
+static SecureMemoryRegistry reg;
+static RMap::node rpool[CAP], renv[ENVN];
+// all registered blocks live in ONE array: the map model orders pointer keys with `<`, which CBMC only decides for pointers into the same object
+static unsigned char mem[CAP + ENVN + 1][BLK];
+#define blocks (mem)
+#define envblk (mem + CAP)
+#define myblk (mem[CAP + ENVN])
+static unsigned envn;
+static size_t lookup(void* p) { for (size_t j = 0; j < CAP; j++) if (reg.registry.s_[j] && reg.registry.s_[j]->v.first == p) return reg.registry.s_[j]->v.second; return (size_t)-1; }
+static struct { bool valid; size_t mine; size_t n; } L;
+extern "C" void vstl_access(const void* c) { if (!lm_on) return; GUARDED_BY(c, reg.registry, reg.SecMemRegistryMutex); }
+// other threads register / unregister blocks of their own; the calling thread's block (myblk) is its own business
+static void env_step(bool mayAdd)
+{
+	for (size_t j = 0; j < CAP; j++) if (reg.registry.s_[j] && reg.registry.s_[j]->v.first != (void*)myblk && nondet_bool()) reg.registry.s_[j] = 0;
+	if (mayAdd && envn < ENVN && nondet_bool())
+	{
+		bool done = false;
+		for (size_t j = 0; j < CAP; j++) if (!done && !reg.registry.s_[j]) { *(void**)&renv[envn].v.first = envblk[envn]; renv[envn].v.second = nondet_uchar() % (BLK + 1); reg.registry.s_[j] = &renv[envn]; done = true; }
+		envn++;
+	}
+}
+static void lm_on_acquire(int idx) { if (&lm_pool[idx] == reg.SecMemRegistryMutex) { env_step(false); L.valid = true; L.mine = lookup(myblk); L.n = 0; for (size_t j = 0; j < CAP; j++) if (reg.registry.s_[j]) L.n++; } }
+static void lm_on_release(int idx) { if (&lm_pool[idx] == reg.SecMemRegistryMutex) env_step(true); }
+static bool inv()
+{
+	for (size_t j = 0; j < CAP; j++) if (reg.registry.s_[j])
+	{
+		if (reg.registry.s_[j]->v.second > BLK) return false;
+		for (size_t k = 0; k < j; k++) if (reg.registry.s_[k] && reg.registry.s_[k]->v.first == reg.registry.s_[j]->v.first) return false;
+	}
+	return true;
+}
+extern "C" void harness(void)
+{
+	const int MR = lm_idx(reg.SecMemRegistryMutex);
+	lm_set_rank(reg.SecMemRegistryMutex, LM_RANK_HANDLES + 10);   // leaf: taken by allocations under any other lock, never holds another
+	bool mineIn = false;
+	for (size_t j = 0; j < CAP; j++)
+	{
+		reg.registry.s_[j] = 0;
+		if (nondet_bool())
+		{
+			bool m = !mineIn && j + 1 < CAP && nondet_bool();   // (one slot stays available for add)
+			*(void**)&rpool[j].v.first = m ? (void*)myblk : (void*)blocks[j]; rpool[j].v.second = nondet_uchar() % (BLK + 1); reg.registry.s_[j] = &rpool[j];
+			if (m) mineIn = true;
+		}
+	}
+	vassume(inv());
+	for (int i = 0; i < BLK; i++) myblk[i] = 0x5A;
+	vassert(lm_all_released());
+	lm_on = true;
+#if OP == 0   // add
+	size_t sz = nondet_uchar() % (BLK + 1);
+	reg.add(myblk, sz);
+	lm_on = false;
+	vassert(L.valid && lookup(myblk) == sz);
+	vreach();
+#elif OP == 1   // remove: returns the size registered at lock time, entry gone
+	size_t r = reg.remove(myblk);
+	lm_on = false;
+	vassert(L.valid && lookup(myblk) == (size_t)-1);
+	if (L.mine != (size_t)-1) { vassert(r == L.mine); vreach(); } else vassert(r == 0);
+#elif OP == 2   // wipe: every block registered at lock time is zeroed while the lock is held
+	reg.wipe();
+	lm_on = false;
+	vassert(L.valid);
+	if (L.mine != (size_t)-1) { for (size_t i = 0; i < BLK; i++) vassert(i >= L.mine || myblk[i] == 0); if (L.mine == BLK) vreach(); }
+#endif
+	vassert(lm_all_released());
+	vassert(lm_acquisitions[MR] == 1);
+	vassert(inv());
+	vreach();
 }
 #endif
